@@ -19,6 +19,28 @@
    <inj> = `-` or comma list of <site><k>: the k-th call of that site during the op fails.
    <zone> is for the model only.  A leading `rec` token appends the libc answers.
 
+   Every call prints its return value AND errno: ` errno=<n>` after the value(s).  errno is set to the
+   sentinel E0 (4242) before the call, so "left untouched" is visible.  libc is normalised by the
+   interposers so that errno is a deterministic function of the control flow: a libc call that
+   succeeds leaves errno as it was (POSIX allows either), a failing call sets the value glibc
+   documents (strdup/setenv ENOMEM, localtime_r/gmtime_r/mktime EOVERFLOW; mktime returning -1 counts
+   as failing, the C code cannot tell either), time() fails without setting errno.
+   Ops on the file-local functions (the harness includes src/pdc.c), where errno carries the error
+   kind (VBI_ERR_INVALID_PIL, VBI_ERR_NO_TIME, EOVERFLOW, ENOMEM):
+     errnos                                              the four constants
+     vlto    <pil> <start> <east> <now> <inj>            valid_pil_lto_to_time
+     vltowin <pil> <start> <east> <now> <inj>            valid_pil_lto_validity_window
+     ltz     <start> <tzhex|NULL> <zone> <now> <inj>     localtime_tz, then restore_tz
+     pty     <start> <tzhex|NULL> <zone> <now> <inj>     vbi_pty_validity_window (public)
+
+   Supervisor: main() never calls zvbi.  It forks a worker, hands it one line at a time and waits for
+   the one output line under a watchdog (PDC_WD_MS, default 5000 ms).  A worker that hangs or dies
+   (sanitizer abort, assertion, signal) is attributed to the op it was given:
+     crash <hang|exit<rc>|sig<n>> <first line of the sanitizer report, blanks as _>
+   the remaining ops of that case answer `skip`, a fresh worker serves the next case.  After
+   CRASH_CAP crashes the remaining ops answer `skip` (bounded run time whatever the code does).
+   `wdtest hang` / `wdtest abort` exercise the machinery itself (-> `ok watchdog hang|abort`).
+
    Harness-only probe (not part of the correspondence; validates the libc hypothesis
    `Zone.FollowsOffsets` of lean/ZvbiModel/Pdc/Spec.lean):
      mkrule <tzhex> <year> <mon 1..12> <mday> <hour> <min>
@@ -28,7 +50,20 @@
 #include "hutil.h"
 #include <time.h>
 #include <stdarg.h>
-#include "src/pdc.h"
+#include <unistd.h>
+#include <signal.h>
+#include <poll.h>
+#include <sys/wait.h>
+#include "src/pdc.c"
+#undef mktime
+#undef timegm
+
+/* pdc.c's only reference into the rest of libzvbi (used by vbi_pil_from_string / _vbi_pil_from_string, which are
+   not in scope): with this stub the harness does not need the library and rebuilds in seconds */
+vbi_bool _vbi_keyword_lookup(int *value, const char **inout_s, const _vbi_key_value_pair *table, unsigned int n_pairs)
+{ (void) value; (void) inout_s; (void) table; (void) n_pairs; abort(); }
+
+#define E0 4242
 
 enum { S_STRDUP, S_SETENV, S_TIME, S_LOCALTIME, S_GMTIME, S_MKTIME, NSITES };
 static const char *site_name[NSITES] = { "strdup", "setenv", "time", "localtime", "gmtime", "mktime" };
@@ -61,23 +96,33 @@ char *__real_strdup(const char *);
 char *__wrap_strdup(const char *s)
 {
 	char *p; int i;
+	int e = errno;
 	if (hit(S_STRDUP)) { errno = ENOMEM; return NULL; }
 	p = __real_strdup(s);
+	if (p) errno = e;
 	if (active && p) for (i = 0; i < NLIVE; ++i) if (!live[i]) { live[i] = p; break; }
 	return p;
 }
 void __real_free(void *);
 void __wrap_free(void *p)
 {
-	int i;
+	int i, e = errno;
 	if (p) for (i = 0; i < NLIVE; ++i) if (live[i] == p) live[i] = NULL;
 	__real_free(p);
+	errno = e;
 }
+void __real_tzset(void);
+void __wrap_tzset(void) { int e = errno; __real_tzset(); errno = e; }
+int __real_unsetenv(const char *);
+int __wrap_unsetenv(const char *n) { int e = errno, r = __real_unsetenv(n); if (0 == r) errno = e; return r; }
 int __real_setenv(const char *, const char *, int);
 int __wrap_setenv(const char *n, const char *v, int o)
 {
+	int e = errno, r;
 	if (hit(S_SETENV)) { errno = ENOMEM; return -1; }
-	return __real_setenv(n, v, o);
+	r = __real_setenv(n, v, o);
+	if (0 == r) errno = e;
+	return r;
 }
 time_t __real_time(time_t *);
 time_t __wrap_time(time_t *t)
@@ -90,28 +135,33 @@ time_t __wrap_time(time_t *t)
 struct tm *__real_localtime_r(const time_t *, struct tm *);
 struct tm *__wrap_localtime_r(const time_t *t, struct tm *tm)
 {
-	struct tm *r;
+	struct tm *r; int e = errno;
 	if (hit(S_LOCALTIME)) { errno = EOVERFLOW; return NULL; }
 	r = __real_localtime_r(t, tm);
 	if (r) rec("L%lld_%d_%d_%d_%d_%d_%d_%d;", (long long) *t, tm->tm_year, tm->tm_mon, tm->tm_mday,
 		   tm->tm_hour, tm->tm_min, tm->tm_sec, tm->tm_isdst);
 	else rec("L%lld_fail;", (long long) *t);
+	errno = r ? e : EOVERFLOW;
 	return r;
 }
 struct tm *__real_gmtime_r(const time_t *, struct tm *);
 struct tm *__wrap_gmtime_r(const time_t *t, struct tm *tm)
 {
+	struct tm *r; int e = errno;
 	if (hit(S_GMTIME)) { errno = EOVERFLOW; return NULL; }
-	return __real_gmtime_r(t, tm);
+	r = __real_gmtime_r(t, tm);
+	errno = r ? e : EOVERFLOW;
+	return r;
 }
 time_t __real_mktime(struct tm *);
 time_t __wrap_mktime(struct tm *tm)
 {
-	struct tm in = *tm; time_t r;
+	struct tm in = *tm; time_t r; int e = errno;
 	if (hit(S_MKTIME)) { errno = EOVERFLOW; return (time_t) -1; }
 	r = __real_mktime(tm);
 	rec("M%d_%d_%d_%d_%d_%d_%d_%lld;", in.tm_year, in.tm_mon, in.tm_mday, in.tm_hour, in.tm_min, in.tm_sec,
 	    in.tm_isdst, (long long) r);
+	errno = ((time_t) -1 == r) ? EOVERFLOW : e;
 	return r;
 }
 
@@ -254,12 +304,12 @@ static int zone_ok(const char *s)
 	return 0;
 }
 
-int main(void)
+static int worker(void)
 {
 	int r;
 	unsetenv("TZ"); tzset();
 	while ((r = h_next())) {
-		long long pil, start, east, now; char *tz = NULL; int o = 0; struct tzsnap a, b;
+		long long pil, start, east, now; char *tz = NULL; int o = 0, e; struct tzsnap a, b;
 		if (r == 2) { unsetenv("TZ"); tzset(); memset(live, 0, sizeof live); continue; }
 		recording = 0;
 		if (H_IS(0, "rec")) { recording = 1; o = 1; }
@@ -272,6 +322,12 @@ int main(void)
 			printf("ok %d %lld %lld %d %d %u %u %u %u %u\n", (int) sizeof(time_t), (long long) tmin, (long long) tmax, INT_MIN, INT_MAX,
 			       (unsigned) VBI_PIL_TIMER_CONTROL, (unsigned) VBI_PIL_INHIBIT_TERMINATE, (unsigned) VBI_PIL_INTERRUPTION,
 			       (unsigned) VBI_PIL_CONTINUE, (unsigned) VBI_PIL_NSPV);
+		} else if (H_IS(o, "errnos") && h_ntok == o + 1) {
+			printf("ok %d %d %d %d %d\n", (int) VBI_ERR_INVALID_PIL, (int) VBI_ERR_NO_TIME, EOVERFLOW, ENOMEM, VBI_VERSION_MINOR);
+		} else if (H_IS(o, "wdtest") && h_ntok == o + 2) {
+			if (0 == strcmp(T(1), "hang")) for (;;) pause();
+			else if (0 == strcmp(T(1), "abort")) abort();
+			else printf("rej parse\n");
 		} else if (H_IS(o, "settz") && h_ntok == o + 2) {
 			if (0 == strcmp(T(1), "unset")) { unsetenv("TZ"); tzset(); printf("ok\n"); }
 			else if (parse_tz(T(1), &tz) && tz) { __real_setenv("TZ", tz, 1); tzset(); printf("ok\n"); }
@@ -285,20 +341,26 @@ int main(void)
 		} else if (H_IS(o, "valid") && h_ntok == o + 2) {
 			if (NUMO(1, pil) && pil >= 0 && pil <= 0xFFFFFFFFLL) printf("ok %d\n", vbi_pil_is_valid_date((vbi_pil) pil) ? 1 : 0);
 			else printf("rej parse\n");
-		} else if ((H_IS(o, "lto") || H_IS(o, "ltowin")) && h_ntok == o + 6) {
+		} else if ((H_IS(o, "lto") || H_IS(o, "ltowin") || H_IS(o, "vlto") || H_IS(o, "vltowin")) && h_ntok == o + 6) {
 			if (NUMO(1, pil) && pil >= 0 && pil <= 0xFFFFFFFFLL && NUMO(2, start) && NUMO(3, east) && in_int(east)
 			    && NUMO(4, now) && parse_inj(T(5))) {
 				now_value = now;
 				tzset(); snap(&a);
-				if (H_IS(o, "lto")) {
+				if (H_IS(o, "lto") || H_IS(o, "vlto")) {
 					time_t t;
-					active = 1; t = vbi_pil_lto_to_time((vbi_pil) pil, (time_t) start, (int) east); active = 0;
-					printf("ok %lld", (long long) t);
+					errno = E0; active = 1;
+					t = H_IS(o, "lto") ? vbi_pil_lto_to_time((vbi_pil) pil, (time_t) start, (int) east)
+							   : valid_pil_lto_to_time((vbi_pil) pil, (time_t) start, (int) east);
+					e = errno; active = 0;
+					printf("ok %lld errno=%d", (long long) t, e);
 				} else {
 					time_t bg = 11111, en = 22222; vbi_bool ok;
-					active = 1; ok = vbi_pil_lto_validity_window(&bg, &en, (vbi_pil) pil, (time_t) start, (int) east); active = 0;
-					if (ok) printf("ok %lld %lld", (long long) bg, (long long) en);
-					else printf("ok false%s", (bg != 11111 || en != 22222) ? "-but-modified" : "");
+					errno = E0; active = 1;
+					ok = H_IS(o, "ltowin") ? vbi_pil_lto_validity_window(&bg, &en, (vbi_pil) pil, (time_t) start, (int) east)
+							       : valid_pil_lto_validity_window(&bg, &en, (vbi_pil) pil, (time_t) start, (int) east);
+					e = errno; active = 0;
+					if (ok) printf("ok %lld %lld errno=%d", (long long) bg, (long long) en, e);
+					else printf("ok false%s errno=%d", (bg != 11111 || en != 22222) ? "-but-modified" : "", e);
 				}
 				snap(&b); put_tail(&a, &b);
 			} else printf("rej parse\n");
@@ -309,21 +371,183 @@ int main(void)
 				tzset(); snap(&a);
 				if (H_IS(o, "totime")) {
 					time_t t;
-					active = 1; t = vbi_pil_to_time((vbi_pil) pil, (time_t) start, tz); active = 0;
-					printf("ok %lld", (long long) t);
+					errno = E0; active = 1; t = vbi_pil_to_time((vbi_pil) pil, (time_t) start, tz); e = errno; active = 0;
+					printf("ok %lld errno=%d", (long long) t, e);
 				} else {
 					time_t bg = 11111, en = 22222; vbi_bool ok;
-					active = 1; ok = vbi_pil_validity_window(&bg, &en, (vbi_pil) pil, (time_t) start, tz); active = 0;
-					if (ok) printf("ok %lld %lld", (long long) bg, (long long) en);
-					else printf("ok false%s", (bg != 11111 || en != 22222) ? "-but-modified" : "");
+					errno = E0; active = 1; ok = vbi_pil_validity_window(&bg, &en, (vbi_pil) pil, (time_t) start, tz); e = errno; active = 0;
+					if (ok) printf("ok %lld %lld errno=%d", (long long) bg, (long long) en, e);
+					else printf("ok false%s errno=%d", (bg != 11111 || en != 22222) ? "-but-modified" : "", e);
+				}
+				snap(&b); put_tail(&a, &b);
+			} else printf("rej parse\n");
+		} else if ((H_IS(o, "ltz") || H_IS(o, "pty")) && h_ntok == o + 6) {
+			if (NUMO(1, start) && parse_tz(T(2), &tz) && zone_ok(T(3)) && NUMO(4, now) && parse_inj(T(5))) {
+				now_value = now;
+				tzset(); snap(&a);
+				if (H_IS(o, "ltz")) {
+					struct tm tm; char *old = NULL; vbi_bool ok;
+					errno = E0; active = 1; ok = localtime_tz(&tm, &old, (time_t) start, tz); e = errno;
+					if (ok) {
+						vbi_bool rok = restore_tz(&old, tz);
+						active = 0;
+						printf("ok 1 %d %d %d %d %d %d %d errno=%d r=%d", tm.tm_year, tm.tm_mon, tm.tm_mday, tm.tm_hour, tm.tm_min,
+						       tm.tm_sec, tm.tm_isdst, e, rok ? 1 : 0);
+					} else { active = 0; printf("ok 0 errno=%d", e); }
+				} else {
+					time_t bg = 11111, en = 22222; vbi_bool ok;
+					errno = E0; active = 1; ok = vbi_pty_validity_window(&bg, &en, (time_t) start, tz); e = errno; active = 0;
+					if (ok) printf("ok %lld %lld errno=%d", (long long) bg, (long long) en, e);
+					else printf("ok false%s errno=%d", (bg != 11111 || en != 22222) ? "-but-modified" : "", e);
 				}
 				snap(&b); put_tail(&a, &b);
 			} else printf("rej parse\n");
 		} else if (H_IS(o, "limits") || H_IS(o, "settz") || H_IS(o, "valid") || H_IS(o, "lto") || H_IS(o, "ltowin")
-			   || H_IS(o, "totime") || H_IS(o, "win")) printf("rej parse\n");
+			   || H_IS(o, "totime") || H_IS(o, "win") || H_IS(o, "vlto") || H_IS(o, "vltowin") || H_IS(o, "ltz")
+			   || H_IS(o, "pty") || H_IS(o, "errnos") || H_IS(o, "wdtest")) printf("rej parse\n");
 		else printf("rej op\n");
 		free(tz);
 		fflush(stdout);
 	}
 	return 0;
+}
+
+/* ---------------- supervisor ---------------- */
+#define CRASH_CAP 40
+static pid_t w_pid; static int w_in = -1, w_out = -1, w_err = -1;
+static char errbuf[1 << 16]; static size_t errlen;
+
+static void spawn(void)
+{
+	int pi[2], po[2], pe[2];
+	if (pipe(pi) || pipe(po) || pipe(pe)) { perror("pipe"); exit(3); }
+	fflush(stdout);
+	w_pid = fork();
+	if (w_pid < 0) { perror("fork"); exit(3); }
+	if (0 == w_pid) {
+		dup2(pi[0], 0); dup2(po[1], 1); dup2(pe[1], 2);
+		close(pi[0]); close(pi[1]); close(po[0]); close(po[1]); close(pe[0]); close(pe[1]);
+		exit(worker());                                       /* exit() so that LeakSanitizer runs */
+	}
+	close(pi[0]); close(po[1]); close(pe[1]);
+	w_in = pi[1]; w_out = po[0]; w_err = pe[0]; errlen = 0;
+}
+static void drain_err(void)
+{
+	ssize_t n; char tmp[4096];
+	while ((n = read(w_err, tmp, sizeof tmp)) > 0)
+		if (errlen + (size_t) n < sizeof errbuf) { memcpy(errbuf + errlen, tmp, (size_t) n); errlen += (size_t) n; }
+}
+/* stop the worker; returns its wait status (or -1), stderr collected in errbuf */
+static int reap(int kill_it)
+{
+	int st = -1;
+	if (w_pid <= 0) return -1;
+	if (kill_it) kill(w_pid, SIGKILL);
+	if (w_in >= 0) { close(w_in); w_in = -1; }
+	drain_err();
+	waitpid(w_pid, &st, 0);
+	drain_err();
+	close(w_out); close(w_err); w_out = w_err = -1; w_pid = 0;
+	return st;
+}
+/* first informative line of a sanitizer / assert report */
+static void summary(char *dst, size_t n)
+{
+	char *p, *q; size_t i = 0;
+	errbuf[errlen < sizeof errbuf ? errlen : sizeof errbuf - 1] = 0;
+	p = strstr(errbuf, "runtime error:"); if (!p) p = strstr(errbuf, "ERROR: "); if (!p) p = strstr(errbuf, "Assertion");
+	if (p) { while (p > errbuf && p[-1] != '\n') --p; } else p = errbuf;
+	q = strchr(p, '\n'); if (!q) q = p + strlen(p);
+	for (; p < q && i + 1 < n; ++p) dst[i++] = (*p == ' ' || *p == '\t') ? '_' : *p;
+	if (0 == i) dst[i++] = '-';
+	dst[i] = 0;
+}
+/* one request, one answer line; 1 = ok (line in *out), 0 = worker lost (kind filled) */
+static int ask(const char *line, int wd_ms, char **out, size_t *cap, char *kind, size_t nk)
+{
+	size_t len = strlen(line), got = 0; int st;
+	signal(SIGPIPE, SIG_IGN);
+	if (write(w_in, line, len) != (ssize_t) len) goto dead;
+	for (;;) {
+		struct pollfd f[2]; int r;
+		f[0].fd = w_out; f[0].events = POLLIN; f[1].fd = w_err; f[1].events = POLLIN;
+		r = poll(f, 2, wd_ms);
+		if (0 == r) { reap(1); snprintf(kind, nk, "hang"); return 0; }
+		if (r < 0) { if (EINTR == errno) continue; goto dead; }
+		if (f[1].revents & POLLIN) {
+			char tmp[4096]; ssize_t n = read(w_err, tmp, sizeof tmp);
+			if (n > 0 && errlen + (size_t) n < sizeof errbuf) { memcpy(errbuf + errlen, tmp, (size_t) n); errlen += (size_t) n; }
+		}
+		if (f[0].revents & POLLIN) {
+			ssize_t n;
+			if (got + 4096 + 1 > *cap) { *cap = (*cap + 4096) * 2; *out = (char *) realloc(*out, *cap); }
+			n = read(w_out, *out + got, 4096);
+			if (n <= 0) goto dead;
+			got += (size_t) n; (*out)[got] = 0;
+			if ((*out)[got - 1] == '\n') return 1;
+		} else if (f[0].revents & (POLLHUP | POLLERR)) goto dead;
+	}
+dead:
+	st = reap(0);
+	if (st >= 0 && WIFEXITED(st)) snprintf(kind, nk, "exit%d", WEXITSTATUS(st));
+	else if (st >= 0 && WIFSIGNALED(st)) snprintf(kind, nk, "sig%d", WTERMSIG(st));
+	else snprintf(kind, nk, "lost");
+	return 0;
+}
+
+/* the supervisor reads fd 0 itself: a stdio read-ahead buffer would be inherited by the forked worker */
+static char *sup_gets(char *dst, size_t n)
+{
+	static char buf[1 << 16]; static size_t lo, hi; size_t i = 0;
+	for (;;) {
+		if (lo == hi) {
+			ssize_t r = read(0, buf, sizeof buf);
+			if (r < 0 && EINTR == errno) continue;
+			if (r <= 0) { if (0 == i) return NULL; break; }
+			lo = 0; hi = (size_t) r;
+		}
+		if (i + 2 < n) dst[i++] = buf[lo];
+		if (buf[lo++] == '\n') break;
+	}
+	dst[i] = 0;
+	return dst;
+}
+
+int main(void)
+{
+	static char line[1 << 20];
+	char *out = NULL; size_t cap = 0; int skip = 0, crashes = 0, rc = 0, wd = 5000;
+	const char *e = getenv("PDC_WD_MS");
+	if (e && atoi(e) > 0) wd = atoi(e);
+	setvbuf(stdout, NULL, _IOFBF, 1 << 16);
+	while (sup_gets(line, sizeof line)) {
+		const char *p = line; char kind[32], sum[400]; int is_case, is_wd;
+		while (*p == ' ' || *p == '\t') ++p;
+		if (*p == '\n' || *p == '\r' || *p == 0 || *p == '#') continue;
+		if (!strchr(line, '\n')) strcat(line, "\n");
+		is_case = 0 == strncmp(p, "case", 4) && (p[4] == ' ' || p[4] == '\n' || p[4] == '\t' || p[4] == '\r');
+		is_wd = 0 == strncmp(p, "wdtest ", 7);
+		if (is_case) skip = 0;
+		if (skip || crashes >= CRASH_CAP) {
+			if (is_case) { fputs(p, stdout); continue; }           /* echo, as h_next() does */
+			printf("skip\n"); continue;
+		}
+		if (w_pid <= 0) spawn();
+		if (ask(line, is_wd ? 300 : wd, &out, &cap, kind, sizeof kind)) { fputs(out, stdout); continue; }
+		if (is_wd) { printf("ok watchdog %s\n", 0 == strcmp(kind, "hang") ? "hang" : "abort"); continue; }
+		summary(sum, sizeof sum);
+		++crashes; skip = 1;
+		fprintf(stderr, "pdc_harness: worker %s on: %s%.*s\n", kind, line, (int) errlen, errbuf);
+		if (is_case) { fputs(p, stdout); continue; }
+		printf("crash %s %s\n", kind, sum);
+	}
+	if (w_pid > 0) {                                                   /* normal end: let LeakSanitizer speak */
+		int st = reap(0);
+		if (st >= 0 && WIFEXITED(st) && WEXITSTATUS(st)) { fwrite(errbuf, 1, errlen, stderr); rc = WEXITSTATUS(st); }
+		else if (st >= 0 && WIFSIGNALED(st)) rc = 128 + WTERMSIG(st);
+	}
+	fflush(stdout);
+	free(out);
+	return rc;
 }
